@@ -329,7 +329,7 @@ int tls_random_print(FILE *fp, const uint8_t random[32], int format, int indent)
 	tls_uint32_from_bytes((uint32_t *)&gmt_unix_time, &cp, &len);
 	format_print(fp, format, indent, "Random\n");
 	indent += 4;
-	format_print(fp, format, indent, "gmt_unix_time : %s", ctime(&gmt_unix_time));
+	format_time(fp, format, indent, "gmt_unix_time ", gmt_unix_time);
 	format_bytes(fp, format, indent, "random", random + 4, 28);
 	return 1;
 }
